@@ -237,6 +237,8 @@ func runC08(c *Ctx, r *Rng, sc c08Scenario, idx int) {
 		t.I(2)
 		if parentErr == nil {
 			c.Fail("spec", "Exchange", sc.name, key, xerr.Error(), "not a context error", "the context's own error only when the context ended")
+		} else if xerr != parentErr {
+			c.Fail("spec", "Exchange", sc.name, key, fmt.Sprintf("%T: %v", xerr, xerr), fmt.Sprintf("%T: %v", parentErr, parentErr), "when the context has ended the call returns the context's own error, not an error that merely wraps or resembles it")
 		}
 	default:
 		if _, ok := xerr.(*radius.NonAuthenticResponseError); ok {
